@@ -10,7 +10,7 @@ import Manticore.Model.SmbIR
 namespace Manticore.Spec.SmbRelations
 open Manticore.SmbIR
 
-/-- (command, buffer or list field, its length / count) -/
+/-- (command, buffer or list field, its length / count); `padLen…`: the arithmetic behind a padding length -/
 def relations : List (String × String × Expr) := [
   ("IoctlRequest", "Pad1", (.fint "ParameterOffset")),
   ("IoctlRequest", "Parameters", (.fint "ParameterCount")),
@@ -35,7 +35,13 @@ def relations : List (String × String × Expr) := [
   ("ReadMpxResponse", "Data", (.fint "DataLength")),
   ("SessionSetupAndxRequest", "OEMPassword", (.fint "OEMPasswordLen")),
   ("SessionSetupAndxRequest", "UnicodePassword", (.fint "UnicodePasswordLen")),
+  -- Pad: UnicodePasswordLen rounded up to an even number of bytes
+  ("SessionSetupAndxRequest", "padLen", (.fint "UnicodePasswordLen")),
+  ("SessionSetupAndxRequest", "padLen:roundUp", .pad),
   ("SessionSetupAndxRequest", "Pad", .pad),
+  -- Pad: one byte when the strings would otherwise start at an odd offset ((len(P)+3)%2 == 1), none otherwise
+  ("SessionSetupAndxResponse", "padLen", (.lit 0)),
+  ("SessionSetupAndxResponse", "padLen:ifPOdd", (.lit 1)),
   ("SessionSetupAndxResponse", "Pad", .pad),
   ("Transaction2Request", "Pad1", (.fint "ParameterOffset")),
   ("Transaction2Request", "Trans2_Parameters", (.fint "ParameterCount")),
